@@ -17,6 +17,8 @@ for d in sorted(glob.glob('/verif/seeded/*/')):
     m = json.load(open(d + '/meta.json'))
     seeds.append('| %s | %s | %s |' % (d.rstrip('/').split('/')[-1], ', '.join(m['detected_by']), m['detection']))
 t = t.replace('@@FIXES@@', '\n'.join(fixes)).replace('@@KNOWN@@', '\n'.join(known)).replace('@@SEEDS@@', '\n'.join(seeds))
+missed = sum(1 for d in sorted(glob.glob('/verif/seeded/*-r[678]m*/')) if json.load(open(d + '/meta.json'))['detection'].startswith('missed'))
+t = t.replace('@@MISSED678@@', str(missed))
 t = t.replace('@@NFIX@@', str(len(fixes))).replace('@@NKNOWN@@', str(len(known))).replace('@@NSEED@@', str(len(seeds)))
 open('/verif/DESIGN.md', 'w').write(t)
 print('fixes', len(fixes), 'known', len(known), 'seeds', len(seeds))
